@@ -101,7 +101,7 @@ class DynamicSGEDecider(SynthesisDecider):
 
     def random_str(self) -> str:
         length = self.random_int(0, self.max_string_length)
-        return str(self.random_chr() for _ in range(length))
+        return "".join(chr(self.random_chr()) for _ in range(length))
 
     def random_bool(self) -> bool:
         return self.read(bool) % 2 == 0
